@@ -27,21 +27,13 @@ func witnessDesigns() []DCase {
 		d.Types = []*dg.UserType{{Name: "Alias", Base: dg.Prim("String")}}
 		add("alias-in-param", d)
 	}
-	// alias of Int in a cookie (an alias of Int in the query string alone compiles)
-	{
-		d := svc1("w_alias_cookie", &dg.Method{Name: "m",
-			Payload: pa(dg.A(dg.Obj(dg.F("ck", dg.Ref("AliasI"))))),
-			HTTP:    &dg.HTTPMap{Routes: []dg.Route{{Verb: "GET", Path: "/m"}}, Cookies: []dg.MapEntry{{Attr: "ck"}}}})
-		d.Types = []*dg.UserType{{Name: "AliasI", Base: dg.Prim("Int")}}
-		add("alias-in-param", d)
-	}
-	// non-string cookie
-	add("non-string-cookie", svc1("w_int_cookie", &dg.Method{Name: "m",
-		Payload: pa(dg.A(dg.Obj(dg.F("c", dg.Prim("Int"))))),
-		HTTP:    &dg.HTTPMap{Routes: []dg.Route{{Verb: "GET", Path: "/m"}}, Cookies: []dg.MapEntry{{Attr: "c"}}}}))
-	add("non-string-cookie", svc1("w_bool_cookie", &dg.Method{Name: "m",
-		Payload: pa(dg.A(dg.Obj(dg.Req("c", dg.Prim("Boolean"))))),
-		HTTP:    &dg.HTTPMap{Routes: []dg.Route{{Verb: "GET", Path: "/m"}}, Cookies: []dg.MapEntry{{Attr: "c"}}}}))
+	// response cookie that is not a String (request cookies of every primitive type compile)
+	add("non-string-response-cookie", svc1("w_int_response_cookie", &dg.Method{Name: "m",
+		Result: pa(dg.A(dg.Obj(dg.F("c", dg.Prim("Int")), dg.F("o", dg.Prim("String"))))),
+		HTTP:   &dg.HTTPMap{Routes: []dg.Route{{Verb: "GET", Path: "/m"}}, Responses: []dg.Response{{Status: 200, Cookies: []dg.MapEntry{{Attr: "c", Wire: "ck"}}}}}}))
+	add("non-string-response-cookie", svc1("w_bool_response_cookie", &dg.Method{Name: "m",
+		Result: pa(dg.A(dg.Obj(dg.Req("c", dg.Prim("Boolean")), dg.F("o", dg.Prim("String"))))),
+		HTTP:   &dg.HTTPMap{Routes: []dg.Route{{Verb: "GET", Path: "/m"}}, Responses: []dg.Response{{Status: 200, Cookies: []dg.MapEntry{{Attr: "c", Wire: "ck"}}}}}}))
 	// inline object nested below the top level
 	add("nested-inline-object", svc1("w_nested_inline", &dg.Method{Name: "m",
 		Payload: pa(dg.A(dg.Obj(dg.F("o", dg.Obj(dg.F("inner", dg.Obj(dg.F("x", dg.Prim("Int"))))))))),
